@@ -4,9 +4,19 @@ import "gopkg.in/typ.v4"
 
 // C07 — slices.Sorted is always sorted and is an exact multiset.
 
+// The less function: ascending, descending or - when the parameter WEAK is 1, only for the claims
+// that hold for every less function (sortedness, exact multiset, Get/RemoveAt by position) - an
+// order that looks at part of the value only (v>>1), so that different values rank as equivalent.
 func c07less() func(a, b int) bool {
-	if vChoose("order", 2) == 1 {
+	n := 2
+	if vParam("WEAK") == 1 {
+		n = 3
+	}
+	switch vChoose("order", n) {
+	case 1:
 		return func(a, b int) bool { return a > b }
+	case 2:
+		return func(a, b int) bool { return a>>1 < b>>1 }
 	}
 	return typ.Less[int]
 }
@@ -218,7 +228,11 @@ func VHSortedHist() {
 			v := vInt("v")
 			had := c07count(&s, v)
 			r := s.Remove(v)
-			vAssert((r != -1) == (had != 0), "Remove succeeds exactly when the value is present")
+			if vParam("WEAK") == 0 {
+				vAssert((r != -1) == (had != 0), "Remove succeeds exactly when the value is present")
+			} else {
+				vAssert(r == -1 || had != 0, "Remove removes only a value that is present")
+			}
 			if r != -1 {
 				cnt -= vB2I(v == p)
 				size--
